@@ -43,7 +43,7 @@ func init() {
 		},
 		Run:          runC09,
 		BeatTimeoutS: 150,
-		Required:     []string{"closes_sent", "calls_after_close_checked", "close_inside_open_message", "concurrent_runs", "histories_linearizable", "close_sequences_after_a_failed_write"},
+		Required:     []string{"pings_during_a_stalled_close", "closes_sent", "calls_after_close_checked", "close_inside_open_message", "concurrent_runs", "histories_linearizable", "close_sequences_after_a_failed_write"},
 		Assumptions: []string{
 			"every close position of each generated program x every close path is enumerated; programs are sampled",
 			"schedules of the concurrent family are sampled (gate-forced windows + free-running goroutines), not enumerated",
